@@ -147,7 +147,9 @@ def _watchdog(seconds):
 
 
 def main(argv=None):
-    _watchdog(int(os.environ.get("VERIF_TIMEOUT", "900")))
+    # (the thorough tier replays several hundred seeded variants of the tree; give it an hour before calling it stuck)
+    thorough = "thorough" in (argv if argv is not None else sys.argv[1:]) or os.environ.get("VERIF_TIER") == "thorough"
+    _watchdog(int(os.environ.get("VERIF_TIMEOUT", "3600" if thorough else "900")))
     ap = argparse.ArgumentParser()
     ap.add_argument("prop")
     ap.add_argument("--tier", default=os.environ.get("VERIF_TIER", "quick"), choices=["quick", "thorough"])
